@@ -378,6 +378,9 @@ func rulePanic(c *Ctx) {
 			for _, ins := range b.Instrs {
 				switch x := ins.(type) {
 				case *ssa.Panic:
+					if !x.Pos().IsValid() {
+						continue // synthesised by the compiler front end (range-over-func protocol checks), not written in the source
+					}
 					bad = append(bad, "explicit panic at "+c.P.pos(x.Pos()))
 				case *ssa.TypeAssert:
 					if !x.CommaOk {
